@@ -45,8 +45,10 @@ inductive Ev where
   | draw            -- Renderer.render
   | erase           -- Renderer.erase
   | doneDraw        -- render(is_done) at the end of the application
-  | bodyBegin (k : Nat)
-  | bodyEnd (k : Nat)
+  /-- the body of section `k` starts / ends; `chain` = the section went through the chain (ghost flag:
+      a section that started while no application was running is not serialised) -/
+  | bodyBegin (k : Nat) (chain : Bool)
+  | bodyEnd (k : Nat) (chain : Bool)
 deriving Repr, DecidableEq
 
 structure St where
@@ -85,14 +87,14 @@ def allDone (c : List Sec) : Bool := c.all fun s => s.st == .done
 
 /-- the `finally:` part of `in_terminal` -/
 def exitEvents (appOn : Bool) (k : Nat) : List Ev :=
-  .bodyEnd k :: (if appOn then [.draw] else [])
+  .bodyEnd k true :: (if appOn then [.draw] else [])
 
 /-- `erase` ... body start (... `leave` for a sync section) of section `x` -/
 def beginBody (s : St) (x : Sec) : St × Status :=
   if x.sync then
-    ({ s with rit := false, log := s.log ++ [.erase, .bodyBegin x.id] ++ exitEvents s.appOn x.id }, .done)
+    ({ s with rit := false, log := s.log ++ [.erase, .bodyBegin x.id true] ++ exitEvents s.appOn x.id }, .done)
   else
-    ({ s with rit := true, log := s.log ++ [.erase, .bodyBegin x.id] }, .body)
+    ({ s with rit := true, log := s.log ++ [.erase, .bodyBegin x.id true] }, .body)
 
 /-- is section `k` the first section of the chain that is not done, and is it waiting? -/
 def canResume : List Sec → Nat → Bool
@@ -111,8 +113,8 @@ def step (s : St) : Op → St
     let k := s.next
     if ¬ s.appOn then
       -- `app is None or not app._is_running`: plain `yield`
-      if sync then { s with next := k + 1, log := s.log ++ [.bodyBegin k, .bodyEnd k] }
-      else { s with next := k + 1, bypass := s.bypass ++ [k], log := s.log ++ [.bodyBegin k] }
+      if sync then { s with next := k + 1, log := s.log ++ [.bodyBegin k false, .bodyEnd k false] }
+      else { s with next := k + 1, bypass := s.bypass ++ [k], log := s.log ++ [.bodyBegin k false] }
     else if lastDone s.chain then
       let x : Sec := { id := k, sync := sync, st := .waiting }
       let (s', st) := beginBody s x
@@ -129,7 +131,7 @@ def step (s : St) : Op → St
     else s
   | .leave k =>
     if s.bypass.contains k then
-      { s with bypass := s.bypass.filter (· != k), log := s.log ++ [.bodyEnd k] }
+      { s with bypass := s.bypass.filter (· != k), log := s.log ++ [.bodyEnd k false] }
     else
       match find? s.chain k with
       | some x =>
@@ -170,8 +172,8 @@ def encEv : Ev → String
   | .draw => "D"
   | .erase => "E"
   | .doneDraw => "X"
-  | .bodyBegin k => s!"B{k}"
-  | .bodyEnd k => s!"b{k}"
+  | .bodyBegin k _ => s!"B{k}"
+  | .bodyEnd k _ => s!"b{k}"
 
 def encStatus : Status → String
   | .waiting => "w"
